@@ -439,6 +439,44 @@ fn check_pair_vars<G: GraphLike>(dg: &Diag, dh: &Diag, pg: &IdPlan, ph: &IdPlan,
                 })?;
             }
         }
+        // ... and as the *second* operand
+        let mut hs = h.clone();
+        guarded(&format!("{name}: clifford_simp"), || quizx::simplify::clifford_simp(&mut hs))?;
+        if hs.scalar_factors().next().is_some() && hs.inputs().len() == g.outputs().len() {
+            obs.class("second-operand-with-scalar-factors");
+            let mut plugged = g.clone();
+            guarded(&format!("{name}: plug (second operand with conditioned scalar factors)"), || plugged.plug(&hs))?;
+            let mut appended = g.clone();
+            let vmap = guarded(&format!("{name}: append_graph (second operand with conditioned scalar factors)"), || appended.append_graph(&hs))?;
+            let mut ins = appended.inputs().clone();
+            let mut outs = appended.outputs().clone();
+            for i in hs.inputs() {
+                ins.push(*vmap.get(i).ok_or("append_graph map lacks an input")?);
+            }
+            for o in hs.outputs() {
+                outs.push(*vmap.get(o).ok_or("append_graph map lacks an output")?);
+            }
+            appended.set_inputs(ins);
+            appended.set_outputs(outs);
+            for sigma in 0..16u32 {
+                let (Some(Truth::Exact(tg)), Some(Truth::Exact(th)), Some(Truth::Exact(tp))) =
+                    (inst_truth(&g, sigma)?, inst_truth(&hs, sigma)?, inst_truth(&plugged, sigma)?)
+                else {
+                    obs.skip("oracle");
+                    continue;
+                };
+                Zw::same(&compose(&tg, &th), &tp).map_err(|e| {
+                    format!("{name}: variables b0..b3={sigma:04b}: plug(g, h) where h carries conditioned scalar factors, then substitution, differs from substitution then composition: {e}")
+                })?;
+                if tg.rank() + th.rank() <= 11 {
+                    if let Some(Truth::Exact(ta)) = inst_truth(&appended, sigma)? {
+                        Zw::same(&tensor_product(&tg, &th), &ta).map_err(|e| {
+                            format!("{name}: variables b0..b3={sigma:04b}: append_graph(h) where h carries conditioned scalar factors, then substitution, differs from substitution then tensor product: {e}")
+                        })?;
+                    }
+                }
+            }
+        }
     }
     obs.class("with-variables");
     Ok(())
